@@ -2,6 +2,7 @@ package main
 
 import (
 	"fmt"
+	"go/constant"
 	"go/token"
 	"go/types"
 	"sort"
@@ -125,28 +126,247 @@ func progressExit(p *Prog, lc LoopClass) (bool, string) {
 	return false, "no `new position == old position → stop` exit: when the motion makes no progress the loop never ends"
 }
 
+// allOf: every iteration calls each of the named functions.
+func everyIterationCallsAll(names ...string) func(p *Prog, lc LoopClass) (bool, string) {
+	return func(p *Prog, lc LoopClass) (bool, string) {
+		for _, n := range names {
+			n := n
+			if !loopEveryIterationPasses(lc.L, func(in ssa.Instruction) bool { return isCallTo(in, n) }) {
+				return false, "an iteration can complete without calling " + n
+			}
+		}
+		return true, ""
+	}
+}
+
+// headerPhiEveryBackEdge: some header phi receives, on every back edge, a
+// value accepted by `good` (which is told the phi).
+func headerPhiEveryBackEdge(l *Loop, typeOK func(types.Type) bool, good func(ph *ssa.Phi, v ssa.Value) bool) bool {
+	for _, in := range l.Head.Instrs {
+		ph, ok := in.(*ssa.Phi)
+		if !ok {
+			break
+		}
+		if !typeOK(ph.Type().Underlying()) {
+			continue
+		}
+		all, any := true, false
+		for i, e := range ph.Edges {
+			if !l.Blocks[l.Head.Preds[i]] {
+				continue
+			}
+			any = true
+			if !good(ph, e) {
+				all = false
+			}
+		}
+		if any && all {
+			return true
+		}
+	}
+	return false
+}
+
+// phiStepped: a header counter is stepped by a non-zero constant on every way
+// round the loop (both directions accepted: the direction is a loop-invariant
+// flag in the reviewed loops). constReset additionally accepts an in-loop
+// assignment of a constant before the step.
+func phiStepped(constReset bool) func(p *Prog, lc LoopClass) (bool, string) {
+	return func(p *Prog, lc LoopClass) (bool, string) {
+		l := lc.L
+		var steps, eqOrSteps func(ph *ssa.Phi, v ssa.Value, d int) bool
+		eqOrSteps = func(ph *ssa.Phi, v ssa.Value, d int) bool {
+			if v == ssa.Value(ph) {
+				return true
+			}
+			if _, isK := constInt(v); isK && constReset {
+				return true
+			}
+			if q, ok := v.(*ssa.Phi); ok && q.Block() != l.Head && l.Blocks[q.Block()] && d < 6 {
+				for _, e := range q.Edges {
+					if !eqOrSteps(ph, e, d+1) {
+						return false
+					}
+				}
+				return true
+			}
+			return steps(ph, v, d)
+		}
+		steps = func(ph *ssa.Phi, v ssa.Value, d int) bool {
+			if d > 6 {
+				return false
+			}
+			switch x := v.(type) {
+			case *ssa.BinOp:
+				if x.Op != token.ADD && x.Op != token.SUB {
+					return false
+				}
+				k, isK := constInt(x.Y)
+				return isK && k != 0 && eqOrSteps(ph, x.X, d+1)
+			case *ssa.Phi:
+				if x.Block() == l.Head || !l.Blocks[x.Block()] {
+					return false
+				}
+				for _, e := range x.Edges {
+					if !steps(ph, e, d+1) {
+						return false
+					}
+				}
+				return true
+			}
+			return false
+		}
+		isInt := func(t types.Type) bool { b, ok := t.(*types.Basic); return ok && b.Info()&types.IsInteger != 0 }
+		if headerPhiEveryBackEdge(l, isInt, func(ph *ssa.Phi, v ssa.Value) bool { return steps(ph, v, 0) }) {
+			return true, ""
+		}
+		return false, "an iteration can complete without stepping the loop counter by a non-zero constant"
+	}
+}
+
+// phiResliced: a header string/slice is replaced, on every way round the loop,
+// by a proper tail of itself (x[k:], possibly through a helper returning the
+// remainder of its argument).
+func phiResliced(remainderFns ...string) func(p *Prog, lc LoopClass) (bool, string) {
+	return func(p *Prog, lc LoopClass) (bool, string) {
+		l := lc.L
+		var shrinks, eqOrShrinks func(ph *ssa.Phi, v ssa.Value, d int) bool
+		visiting := map[ssa.Value]bool{}
+		// eqOrShrinks: v is the scanned value itself or a tail of it. Phis
+		// (e.g. the cursor of an inner scanning loop that starts at the value)
+		// are taken coinductively: every value they can receive is one.
+		eqOrShrinks = func(ph *ssa.Phi, v ssa.Value, d int) bool {
+			if v == ssa.Value(ph) {
+				return true
+			}
+			if q, ok := v.(*ssa.Phi); ok && q.Block() != l.Head && l.Blocks[q.Block()] {
+				if visiting[q] {
+					return true
+				}
+				visiting[q] = true
+				defer delete(visiting, q)
+				for _, e := range q.Edges {
+					if !eqOrShrinks(ph, e, d+1) {
+						return false
+					}
+				}
+				return true
+			}
+			return shrinks(ph, v, d)
+		}
+		shrinks = func(ph *ssa.Phi, v ssa.Value, d int) bool {
+			if d > 12 {
+				return false
+			}
+			switch x := v.(type) {
+			case *ssa.Slice:
+				if x.Low == nil {
+					return false
+				}
+				if k, isK := constInt(x.Low); isK && k <= 0 {
+					return false
+				}
+				return eqOrShrinks(ph, x.X, d+1)
+			case *ssa.Extract:
+				cl, ok := x.Tuple.(*ssa.Call)
+				if !ok {
+					return false
+				}
+				hit := false
+				for _, n := range remainderFns {
+					if calleeName(cl) == n {
+						hit = true
+					}
+				}
+				if !hit {
+					return false
+				}
+				for _, a := range cl.Call.Args {
+					if eqOrShrinks(ph, a, d+1) {
+						return true
+					}
+				}
+				return false
+			case *ssa.Phi:
+				if x.Block() == l.Head || !l.Blocks[x.Block()] {
+					return false
+				}
+				for _, e := range x.Edges {
+					if !shrinks(ph, e, d+1) {
+						return false
+					}
+				}
+				return true
+			}
+			return false
+		}
+		isSeq := func(t types.Type) bool {
+			if b, ok := t.(*types.Basic); ok {
+				return b.Info()&types.IsString != 0
+			}
+			_, ok := t.(*types.Slice)
+			return ok
+		}
+		if headerPhiEveryBackEdge(l, isSeq, func(ph *ssa.Phi, v ssa.Value) bool { return shrinks(ph, v, 0) }) {
+			return true, ""
+		}
+		return false, "an iteration can complete without replacing the scanned string/slice by a proper tail of itself"
+	}
+}
+
+// fieldStepped: every iteration stores `field ± something` back into the field.
+func fieldStepped(tn, field string) func(p *Prog, lc LoopClass) (bool, string) {
+	return func(p *Prog, lc LoopClass) (bool, string) {
+		ok := loopEveryIterationPasses(lc.L, func(in ssa.Instruction) bool {
+			st, isS := isFieldStore(in, tn, field)
+			if !isS {
+				return false
+			}
+			bo, isB := st.Val.(*ssa.BinOp)
+			return isB && (bo.Op == token.ADD || bo.Op == token.SUB) && isFieldLoad(bo.X, tn, field)
+		})
+		return ok, "an iteration can complete without moving " + tn + "." + field
+	}
+}
+
+// storesDynamicCallResult: every iteration stores the result of a call through
+// a func value (the `move` closure of the closure-counter loops whose counter
+// is a captured variable).
+func storesDynamicCallResult(p *Prog, lc LoopClass) (bool, string) {
+	ok := loopEveryIterationPasses(lc.L, func(in ssa.Instruction) bool {
+		st, isS := in.(*ssa.Store)
+		if !isS {
+			return false
+		}
+		cl, isC := st.Val.(*ssa.Call)
+		return isC && staticCallee(cl) == nil && !cl.Call.IsInvoke()
+	})
+	return ok, "an iteration can complete without assigning move(counter) to the counter"
+}
+
 var reviewedLoops = map[string]reviewedLoop{
 	"(*keymap.Engine).dispatchKeys:loop#0":           {"queue shrink: every iteration pops one key (core.PopKey) and the queue is finite; exit when PeekKey reports empty", everyIterationCalls("core.PopKey")},
+	"(*keymap.Engine).dispatchCharacter:loop#0":      {"every iteration appends one popped continuation byte to the character (or returns): utf8.FullRune holds after at most utf8.UTFMax bytes", everyIterationCalls("core.PopKey")},
 	"(*history.Sources).Undo:loop#0":                 {"lineHistory.pos is incremented every iteration and the loop exits when pos > len(items)", fieldCounter(lhT, "pos")},
 	"(*history.Sources).match:loop#0":                {"`for done(i) { i = move(i) }` with move = ±1 on the counter and done comparing it with 0 / Len()", closureCounter},
 	"history.Complete:loop#0":                        {"same closure-counter form as Sources.match", closureCounter},
-	"(*core.Selection).matchKeyword:loop#0":          {"same closure-counter form over the matcher list", nil},
-	"(*core.Line).Find:loop#0":                       {"pos is stepped by ±1 every iteration (both branches) and each branch exits past Len()-1 / below 0", nil},
-	"(*core.Line).SurroundQuotes:loop#0":             {"prev/next move strictly outward: Find returns a position < pos (backward) / > pos (forward) or -1, which exits", nil},
+	"(*core.Selection).matchKeyword:loop#0":          {"closure-counter form over the matcher list; the counter is a captured variable assigned move(kpos) before every `continue`", storesDynamicCallResult},
+	"(*core.Line).Find:loop#0":                       {"pos is stepped by ±1 every iteration (both branches) and each branch exits past Len()-1 / below 0", phiStepped(false)},
+	"(*core.Line).SurroundQuotes:loop#0":             {"prev/next move strictly outward: Find returns a position < pos (backward) / > pos (forward) or -1, which exits", everyIterationCallsAll("(*core.Line).Find")},
 	"(*core.Cursor).ToFirstNonSpace:loop#0":          {"pos is stepped by ±1 every iteration; backward exits at pos <= 0, forward ends because Char() clamps and returns 0 (not a space) at the end", fieldCounter("core.Cursor", "pos")},
-	"(*core.Selection).SelectAShellWord:loop#0":      {"Line.Backward is strictly negative unless mark == 0, which exits", nil},
+	"(*core.Selection).SelectAShellWord:loop#0":      {"Line.Backward is strictly negative unless mark == 0, which exits", everyIterationCallsAll("(*core.Line).Backward", "(*core.Cursor).Move")},
 	"(*core.Selection).SelectAShellWord:loop#1":      {"ForwardEnd moves to the end of the next blank word; when it makes no progress the loop must stop", progressExit},
-	"(*core.Selection).selectToCursor:loop#1":        {"bounded scan over the line positions (reviewed)", nil},
-	"(*completion.Engine).cycleNextGroup:loop#1":     {"terminates when some group has rows: each recursive call advances the current group by one (mod len); guarded at every outside call site (rule C01.cycle-guard)", nil},
-	"(*completion.Engine).cyclePreviousGroup:loop#1": {"same as cycleNextGroup", nil},
-	"(*completion.group).findFirstCandidate:loop#0":  {"posY leaves [0,maxY) in at most maxY steps and each branch returns or moves posX monotonically (callers pass (x,y) != (0,0))", nil},
-	"(*completion.group).wrapExcessAliases:loop#2":   {"row = row[maxColumns:] shrinks the row only if maxColumns >= 1 (rule C01.wrap-columns)", nil},
-	"(*editor.Buffers).writeNum:loop#0":              {"i counts down from len(num) with i-- every iteration (an extra i-- at i == numRegisters); exit at i <= 0", nil},
-	"inputrc.decodeKey:loop#1":                       {"val = val[idx+1:] with idx >= 0 every iteration: val shrinks by at least one byte; exit when no '-' is left", nil},
-	"strutil.Split:loop#0":                           {"every cycle consumes at least one byte of input (splitWord returns a strictly shorter remainder)", nil},
-	"strutil.splitWord:loop#0":                       {"goto state machine: each state re-slices input/cur before jumping back (consumes >= 1 byte)", nil},
-	"strutil.splitWord:loop#1":                       {"same state machine", nil},
-	"strutil.splitWord:loop#2":                       {"same state machine", nil},
+	"(*core.Selection).selectToCursor:loop#1":        {"bounded scan over the line positions: epos++ every iteration (after an optional reset of -1 to 0), exit at Len()", phiStepped(true)},
+	"(*completion.Engine).cycleNextGroup:loop#1":     {"terminates when some group has rows: each recursive call advances the current group by one (mod len); guarded at every outside call site (rule C01.cycle-guard)", everyIterationCallsAll("(*completion.Engine).cycleNextGroup")},
+	"(*completion.Engine).cyclePreviousGroup:loop#1": {"same as cycleNextGroup", everyIterationCallsAll("(*completion.Engine).cyclePreviousGroup")},
+	"(*completion.group).findFirstCandidate:loop#0":  {"posY leaves [0,maxY) in at most maxY steps and each branch returns or moves posX monotonically (callers pass (x,y) != (0,0))", fieldStepped("completion.group", "posY")},
+	"(*completion.group).wrapExcessAliases:loop#2":   {"row = row[maxColumns:] shrinks the row only if maxColumns >= 1 (rule C01.wrap-columns)", phiResliced()},
+	"(*editor.Buffers).writeNum:loop#0":              {"i counts down from len(num) with i-- every iteration (an extra i-- at i == numRegisters); exit at i <= 0", phiStepped(false)},
+	"inputrc.decodeKey:loop#1":                       {"val = val[idx+1:] with idx >= 0 every iteration: val shrinks by at least one byte; exit when no '-' is left", phiResliced()},
+	"strutil.Split:loop#0":                           {"every cycle consumes at least one byte of input (splitWord returns a strictly shorter remainder)", phiResliced("strutil.splitWord")},
+	"strutil.splitWord:loop#0":                       {"goto state machine: each state re-slices input/cur before jumping back (consumes >= 1 byte)", phiResliced()},
+	"strutil.splitWord:loop#1":                       {"same state machine", phiResliced()},
+	"strutil.splitWord:loop#2":                       {"same state machine", phiResliced()},
 }
 
 func checkC01(c *Ctx) {
@@ -469,6 +689,11 @@ func checkC01Recursion(c *Ctx, fns []*ssa.Function) {
 						why = append(why, bad)
 						break
 					}
+					if good, bad := includeLinear(p); !good {
+						allRev = false
+						why = append(why, bad)
+						break
+					}
 				}
 				why = append(why, w)
 				break
@@ -549,8 +774,100 @@ func includeDepthBounded(p *Prog) (bool, string) {
 	if !inc {
 		return false, "the nested parser does not receive depth+1"
 	}
-	// the option result must reach the nested call's options
+	// nothing else may write the depth (a reset in Parse would defeat the bound)
+	for _, f := range p.RepoFuncs {
+		if f.Parent() != nil && strings.HasPrefix(fnName(f), "inputrc.withDepth") {
+			continue
+		}
+		bad := ""
+		eachInstr(f, func(x ssa.Instruction) {
+			if _, ok := isFieldStore(x, "inputrc.Parser", "depth"); ok {
+				bad = fnName(f)
+			}
+		})
+		if bad != "" {
+			return false, bad + " writes Parser.depth: only the withDepth option of the nested $include parse may set it, otherwise the bound no longer counts nesting levels"
+		}
+	}
 	return true, ""
+}
+
+// includeLinear: once a level reported ErrIncludeTooDeep, the enclosing
+// Parser.Parse loop must stop instead of handling its next line — otherwise a
+// file holding two self-inclusions is re-parsed 2^maxIncludeDepth times, which
+// is bounded on paper and never returns in practice.  Checked on the CFG of
+// (*Parser).Parse: from the `err != nil` edge after p.next, every path back to
+// scanner.Scan passes a test of the error against ErrIncludeTooDeep, and the
+// true edge of each such test cannot reach scanner.Scan.
+func includeLinear(p *Prog) (bool, string) {
+	PARSE := p.Func("(*inputrc.Parser).Parse")
+	if PARSE == nil {
+		return false, "(*inputrc.Parser).Parse not found"
+	}
+	tooDeep := ""
+	if pk := p.Pkg("inputrc"); pk != nil {
+		if c, ok := pk.Types.Scope().Lookup("ErrIncludeTooDeep").(*types.Const); ok {
+			tooDeep = constant.StringVal(c.Val())
+		}
+	}
+	if tooDeep == "" {
+		return false, "the constant inputrc.ErrIncludeTooDeep was not found"
+	}
+	isTooDeep := func(v ssa.Value) bool {
+		if mi, ok := v.(*ssa.MakeInterface); ok {
+			v = mi.X
+		}
+		s, ok := constString(v)
+		return ok && s == tooDeep
+	}
+	isScan := func(in ssa.Instruction) bool { return isCallTo(in, "(*bufio.Scanner).Scan") }
+	var next *ssa.Call
+	tests := map[ssa.Value]bool{}
+	eachInstr(PARSE, func(in ssa.Instruction) {
+		switch x := in.(type) {
+		case *ssa.Call:
+			if calleeName(x) == "(*inputrc.Parser).next" {
+				next = x
+			}
+			if calleeName(x) == "errors.Is" && len(x.Call.Args) == 2 && isTooDeep(x.Call.Args[1]) {
+				tests[x] = true
+			}
+		case *ssa.BinOp:
+			if x.Op == token.EQL && (isTooDeep(x.X) || isTooDeep(x.Y)) {
+				tests[x] = true
+			}
+		}
+	})
+	if next == nil {
+		return false, "no call of (*Parser).next in (*Parser).Parse"
+	}
+	testBlocks := map[*ssa.BasicBlock]bool{}
+	for _, b := range PARSE.Blocks {
+		ifi, ok := b.Instrs[len(b.Instrs)-1].(*ssa.If)
+		if !ok || !tests[ifi.Cond] {
+			continue
+		}
+		testBlocks[b] = true
+		if blockReaches(b.Succs[0], isScan, nil) {
+			return false, "the parse loop goes on to the next line after a too-deep $include"
+		}
+	}
+	// the err != nil edge after p.next
+	for _, b := range PARSE.Blocks {
+		ifi, ok := b.Instrs[len(b.Instrs)-1].(*ssa.If)
+		if !ok {
+			continue
+		}
+		bo, ok := ifi.Cond.(*ssa.BinOp)
+		if !ok || bo.Op != token.NEQ || bo.X != ssa.Value(next) {
+			continue
+		}
+		if blockReaches(b.Succs[0], isScan, testBlocks) {
+			return false, "an error of a nested $include level (too deep) does not stop the enclosing Parse loop: a file that includes itself twice is re-parsed 2^depth times"
+		}
+		return true, ""
+	}
+	return false, "the error test after p.next was not recognised"
 }
 
 // ---------------- explicit panics ----------------
